@@ -192,7 +192,10 @@ def _sites():
     md20 = {k: v for k, v in md21.items() if k != "spec_version"}
     fpe = {"type": "file", "id": "file--" + UU, "name": "f", "extensions": {"windows-pebinary-ext": {"pe_type": "exe", "optional_header": {"magic_hex": "0a"},
                                                                                         "file_header_hashes": {"MD5": "0" * 32}}}}
-    bases = [("2.1", mal), ("2.1", f), ("2.0", od20), ("2.1", b21), ("2.1", rel), ("2.0", rel20), ("2.0", rep20), ("2.1", md21), ("2.0", md20), ("2.1", fpe)]
+    od20ref = {"type": "observed-data", "id": "observed-data--" + UU, "created": "2020-01-01T00:00:00.000Z", "modified": "2020-01-01T00:00:00.000Z",
+               "first_observed": "2020-01-01T00:00:00Z", "last_observed": "2020-01-01T00:00:00Z", "number_observed": 1,
+               "objects": {"0": {"type": "file", "name": "f", "parent_directory_ref": "1"}, "1": {"type": "directory", "path": "p"}}}
+    bases = [("2.1", mal), ("2.1", f), ("2.0", od20), ("2.1", b21), ("2.1", rel), ("2.0", rel20), ("2.0", rep20), ("2.1", md21), ("2.0", md20), ("2.1", fpe), ("2.0", od20ref)]
     inj = [
         # (base index, description, path, value, insert-first)
         (0, "top-level custom property", "x_foo", 1), (0, "custom property in embedded object", "external_references.0.x_foo", 1),
@@ -284,18 +287,18 @@ def flag_iff_strict_refuses(i: int, j: int) -> bool:
 
 
 # ---- members named like the constructors' own flags are content, not switches
-RESERVED = ["allow_custom", "interoperability", "custom_properties"]
-RES_SITES = [(0, ""), (0, "external_references.0."), (0, "kill_chain_phases.0."), (1, ""), (1, "extensions.ntfs-ext."), (1, "extensions.ntfs-ext.alternate_data_streams.0."),
+RESERVED = ["allow_custom", "interoperability", "custom_properties", "_valid_refs"]
+RES_SITES = [(0, ""), (10, ""), (10, "objects.0."), (0, "external_references.0."), (0, "kill_chain_phases.0."), (1, ""), (1, "extensions.ntfs-ext."), (1, "extensions.ntfs-ext.alternate_data_streams.0."),
              (7, "definition."), (8, "definition."), (2, "objects.0."), (3, "objects.0."), (4, ""), (5, ""),
              (9, "extensions.windows-pebinary-ext.optional_header."), (9, "extensions.windows-pebinary-ext.")]
 
 
 def reserved_names(si: int, ni: int, with_custom: bool) -> bool:
     """
-    pre: 0 <= si < len(RES_SITES) and 0 <= ni < 3
+    pre: 0 <= si < len(RES_SITES) and 0 <= ni < 4
     post: _
     """
-    si, ni, with_custom = pick(si, len(RES_SITES)), pick(ni, 3), bool(with_custom)
+    si, ni, with_custom = pick(si, len(RES_SITES)), pick(ni, 4), bool(with_custom)
     with Native():
         ok = run_reserved_case(si, ni, with_custom)
     V.reached()
@@ -308,7 +311,7 @@ def run_reserved_case(si, ni, with_custom):
     bi, prefix = RES_SITES[si]
     ver, base = BASES[bi]
     name = RESERVED[ni]
-    doc = set_path(base, prefix + name, {"x_foo": 1} if name == "custom_properties" else True)
+    doc = set_path(base, prefix + name, {"x_foo": 1} if name == "custom_properties" else ["*"] if name == "_valid_refs" else True)
     if with_custom and name != "custom_properties":
         doc = set_path(doc, prefix + "x_foo", 1)
     try:
